@@ -710,3 +710,169 @@ func init() {
 	Register(1102, "peerreader over net.Pipe with scripted chunking: messages delivered", genReader)
 	RegisterReplay(1102, runReader)
 }
+
+// ---- kind 1105: the writer's queue while the connection is blocked ----
+// in  = [maxQueuedRequests fast] then messages (tag 8 = the peer cancels that request: CancelRequest)
+// obs = the bytes written once the connection is released, then [-1, sum of BlockUploaded lengths]
+
+type gateConn struct {
+	net.Conn
+	gate    chan struct{}
+	arrived chan struct{}
+	once    sync.Once
+}
+
+func (g *gateConn) Write(p []byte) (int, error) {
+	g.once.Do(func() { close(g.arrived) })
+	<-g.gate
+	return g.Conn.Write(p)
+}
+
+func sendWMsg(w *peerwriter.PeerWriter, m WMsg, cancelIsOp bool) {
+	switch m.Tag {
+	case 0:
+		w.SendMessage(peerprotocol.ChokeMessage{})
+	case 1:
+		w.SendMessage(peerprotocol.UnchokeMessage{})
+	case 2:
+		w.SendMessage(peerprotocol.InterestedMessage{})
+	case 3:
+		w.SendMessage(peerprotocol.NotInterestedMessage{})
+	case 4:
+		w.SendMessage(peerprotocol.HaveMessage{Index: uint32(m.A)})
+	case 16:
+		w.SendMessage(peerprotocol.RejectMessage{RequestMessage: peerprotocol.RequestMessage{Index: uint32(m.A), Begin: uint32(m.B), Length: uint32(m.C)}})
+	case 8:
+		if cancelIsOp {
+			w.CancelRequest(peerprotocol.CancelMessage{RequestMessage: peerprotocol.RequestMessage{Index: uint32(m.A), Begin: uint32(m.B), Length: uint32(m.C)}})
+		}
+	case 7:
+		w.SendPiece(peerprotocol.RequestMessage{Index: uint32(m.A), Begin: uint32(m.B), Length: uint32(len(m.Data))}, fixedReaderAt{m.Data})
+	}
+}
+
+func runWQueue(in []int64) []int64 {
+	if len(in) < 3 {
+		return []int64{-701}
+	}
+	maxq, fast := int(in[0]), in[1] != 0
+	msgs := ParseWMsgs(in[2:])
+	if len(msgs) == 0 {
+		return []int64{-702}
+	}
+	c1, c2 := net.Pipe()
+	g := &gateConn{Conn: c1, gate: make(chan struct{}), arrived: make(chan struct{})}
+	w := peerwriter.New(g, logger.New("verif"), maxq, fast, nil)
+	go w.Run()
+	var mu sync.Mutex
+	var got bytes.Buffer
+	sentinel := []byte{0, 0, 0, 3, 9, 0xFF, 0xFE}
+	cond := sync.NewCond(&mu)
+	eof := false
+	go func() {
+		buf := make([]byte, 65536)
+		for {
+			n, err := c2.Read(buf)
+			mu.Lock()
+			got.Write(buf[:n])
+			if err != nil {
+				eof = true
+			}
+			cond.Broadcast()
+			mu.Unlock()
+			if err != nil {
+				return
+			}
+		}
+	}()
+	var uploaded int64
+	upDone := make(chan struct{})
+	go func() {
+		defer close(upDone)
+		for {
+			select {
+			case ev := <-w.Messages():
+				if bu, ok := ev.(peerwriter.BlockUploaded); ok {
+					uploaded += int64(bu.Length)
+				}
+			case <-w.Done():
+				return
+			}
+		}
+	}()
+	sendWMsg(w, msgs[0], true)
+	select {
+	case <-g.arrived: // the first message is being written now: it has left the queue
+	case <-time.After(10 * time.Second):
+		close(g.gate)
+		w.Stop()
+		c2.Close()
+		return []int64{-703}
+	}
+	for _, m := range msgs[1:] {
+		sendWMsg(w, m, true)
+	}
+	close(g.gate)
+	w.SendMessage(peerprotocol.PortMessage{Port: 0xFFFE})
+	deadline := time.AfterFunc(10*time.Second, func() { mu.Lock(); eof = true; cond.Broadcast(); mu.Unlock() })
+	mu.Lock()
+	for !bytes.HasSuffix(got.Bytes(), sentinel) && !eof {
+		cond.Wait()
+	}
+	if bytes.HasSuffix(got.Bytes(), sentinel) {
+		got.Truncate(got.Len() - len(sentinel))
+	}
+	mu.Unlock()
+	deadline.Stop()
+	w.Stop()
+	<-w.Done()
+	<-upDone
+	c2.Close()
+	mu.Lock()
+	b := append([]byte{}, got.Bytes()...)
+	mu.Unlock()
+	obs := make([]int64, 0, len(b)+2)
+	for _, c := range b {
+		obs = append(obs, int64(c))
+	}
+	return append(obs, -1, uploaded)
+}
+
+func genWQueue(r *rand.Rand, tier string) Case {
+	maxq := 1 + r.Intn(4)
+	fast := r.Intn(2) == 0
+	in := []int64{int64(maxq), b2i(fast)}
+	type req struct{ a, b int64; data []byte }
+	var reqs []req
+	n := 2 + r.Intn(9)
+	for i := 0; i < n; i++ {
+		x := r.Intn(10)
+		var m WMsg
+		switch {
+		case i == 0 && x < 6, i > 0 && x < 5: // a piece (sometimes the same request again)
+			if len(reqs) > 0 && r.Intn(4) == 0 {
+				q := reqs[r.Intn(len(reqs))]
+				m = WMsg{Tag: 7, A: q.a, B: q.b, Data: q.data}
+			} else {
+				d := make([]byte, 1+r.Intn(40))
+				r.Read(d)
+				m = WMsg{Tag: 7, A: int64(r.Intn(4)), B: int64(16384 * r.Intn(3)), Data: d}
+				reqs = append(reqs, req{m.A, m.B, d})
+			}
+		case x < 7 && i > 0: // choke
+			m = WMsg{Tag: 0}
+		case x < 9 && i > 0 && len(reqs) > 0: // the peer cancels a request
+			q := reqs[r.Intn(len(reqs))]
+			m = WMsg{Tag: 8, A: q.a, B: q.b, C: int64(len(q.data))}
+		default:
+			m = []WMsg{{Tag: 1}, {Tag: 4, A: int64(r.Intn(100))}, {Tag: 2}}[r.Intn(3)]
+		}
+		in = append(in, m.Flat()...)
+	}
+	return Case{In: in, Obs: Guard(func() []int64 { return runWQueue(in) })}
+}
+
+func init() {
+	Register(1105, "peerwriter queue while the connection is blocked: pieces, choke, cancelled requests, queue bound", genWQueue)
+	RegisterReplay(1105, runWQueue)
+}
